@@ -176,6 +176,17 @@ def c05_assert_bound (pre : List PkSnap) (req : GetReq) (o : Obs) : Bool :=
       && (match req.allowList with | some l => l.isEmpty || l.any (· == cred) | none => true)
   | _ => true
 
+/-- the assertion request got past option checks and consent (so the lookup is what decides next) -/
+def pastConsentGet (e : Env) (r : GetReq) : Bool :=
+  !r.pinAuth && !r.rk && consentGiven e (.get r) && !(r.uv && e.uv.verification != some true)
+
+/-- an absent or empty allow list selects the first credential the store lists for the RP: when the store
+holds one, the assertion is produced (with which one: `c05_assert_uses_lookup`) -/
+def c05_assert_selects (e : Env) (r : GetReq) (o : Obs) : Bool :=
+  if !pastConsentGet e r || e.faulty || r.ext.isSome then true else
+  let noList := match r.allowList with | some l => l.isEmpty | none => true
+  if noList && e.pre.any (fun p => p.rpId == r.rpId) then isOk o.res else true
+
 /-- the ceremony got past the consent stage (so the exclude list is what decides next) -/
 def pastConsentMake (e : Env) (r : MakeReq) : Bool :=
   r.up && consentGiven e (.make r) && !(r.uv && e.uv.verification != some true)
